@@ -255,7 +255,7 @@ def polymorph_response(response, poly, bqm,
     """
     record = response.record
     penalty_vector = penalty_satisfaction(response, bqm)
-    original_variables = bqm.variables
+    original_variables = response.variables
 
     if discard_unsatisfied:
         samples_to_keep = list(map(bool, list(penalty_vector)))
